@@ -9,7 +9,7 @@ Complements `Model/ConvLine.lean` (the address dimension only). Mirrors, path by
 * `ConvertLineProgram::{convert_string, convert_file}`, `LineString::new`       → `convertString`, `convertFile`
 * `ConvertLineProgram::new` (working directory / comp name fallbacks, `InvalidLineBase`,
   directory and file mappings, the `file_has_*` flags)                          → `convNew`
-* `ConvertLineProgram::{read_row, convert_row}` and the loop of `convert`       → `readRow`, `convertRow`, `convLoop`
+* `ConvertLineProgram::{read_row, convert_row, address_offset}` and the loop of `convert` → `readRow`, `convertRow`, `convLoop`
 * `ConvertUnit::convert_file_index` (`DW_AT_decl_file`-style attributes)          → `convertFileIndex`
 * `Unit::line_program_in_use`                                                   → `programWritten`
 
@@ -34,6 +34,7 @@ inductive CErr where
   | invalidFileIndex
   | invalidDirectoryIndex
   | invalidLineBase
+  | unsupportedLineInstruction
   deriving DecidableEq, Repr
 
 def CErr.name : CErr → String
@@ -46,6 +47,7 @@ def CErr.name : CErr → String
   | .invalidFileIndex => "InvalidFileIndex"
   | .invalidDirectoryIndex => "InvalidDirectoryIndex"
   | .invalidLineBase => "InvalidLineBase"
+  | .unsupportedLineInstruction => "UnsupportedLineInstruction"
 
 /-- outcome of a conversion step: a value, a `ConvertError`, or a panic -/
 inductive CRes (α : Type) where
@@ -138,6 +140,8 @@ structure CSt where
 def convertFile (strs : Strs) (st : CSt) (f : FileEntry) : CRes CSt := do
   let version := st.prog.enc.version
   let (tabs, name) ← convertString strs version st.tabs f.path
+  -- only `DW_LNE_define_file` can have an empty name for these versions, and it cannot be written
+  if name.form = .string ∧ name.val.isEmpty ∧ version ≤ 4 then .err .unsupportedLineInstruction else
   if f.dirIndex ≥ st.dirs.length then .err .invalidDirectoryIndex else
   let dir := st.dirs.getD f.dirIndex 0
   let (tabs, source) ← (match f.source with
@@ -163,49 +167,67 @@ def convertDirs (strs : Strs) : CSt → List AttrVal → CRes CSt
     let (prog, id) ← ofWrite (addDirectory st.prog s)
     convertDirs strs { st with prog, tabs, dirs := st.dirs ++ [id] } ds
 
+/-- the working directory of `ConvertLineProgram::new`: directory 0 of the source header, or — for
+versions ≤ 4, where it is not emitted — an empty string -/
+def workingDir (strs : Strs) (hd : Header) (tabs : Tabs) : CRes (Tabs × LineStr) :=
+  match hd.directory 0 with
+  | some d => convertString strs hd.p.version tabs d
+  | none =>
+    if hd.p.version ≤ 4 then pure (tabs, { form := .string, val := [] })
+    else .err .missingCompilationDirectory
+
+/-- the source directory and source file of `ConvertLineProgram::new` (no skeleton unit): file 0 of
+the source header -/
+def sourceFile (strs : Strs) (hd : Header) (tabs : Tabs) : CRes (Tabs × Option LineStr × LineStr) :=
+  match hd.file 0 with
+  | some f => do
+    let (tabs, sd) ← (
+      if f.dirIndex ≠ 0 then
+        match hd.directory f.dirIndex with
+        | some d => do
+          let (tabs, x) ← convertString strs hd.p.version tabs d
+          pure (tabs, some x)
+        | none => .err .invalidDirectoryIndex
+      else pure (tabs, none) : CRes (Tabs × Option LineStr))
+    let (tabs, sf) ← convertString strs hd.p.version tabs f.path
+    pure (tabs, sd, sf)
+  | none =>
+    if hd.p.version ≤ 4 then pure (tabs, none, { form := .string, val := [] })
+    else .err .missingCompilationName
+
+/-- the encoding `ConvertLineProgram::new` hands to `LineProgram::new`: the source header's -/
+def encOf (p : Params) : Enc :=
+  { version := p.version, minInstLen := p.minInstLen, maxOps := p.maxOps, defaultIsStmt := p.defaultIsStmt,
+    lineBase := p.lineBase, lineRange := p.lineRange }
+
+/-- the `file_has_*` flags of the source header -/
+def withFlags (hd : Header) (st : CSt) : CSt :=
+  let has (ct : Nat) : Bool := hd.fileFormat.any (fun x => x.1 == ct)
+  { st with prog := { st.prog with hasTimestamp := decide (hd.p.version ≤ 4) || has 3,
+                                   hasSize := decide (hd.p.version ≤ 4) || has 4,
+                                   hasMd5 := has 5, hasSource := has 0x2001 } }
+
 /-- `ConvertLineProgram::new` with `encoding = None`, `line_encoding = None`, no skeleton unit
 (`from_comp_name = None`) -/
 def convNew (m : Mode) (strs : Strs) (hd : Header) (tabs : Tabs) : CRes CSt := do
   let version := hd.p.version
-  let enc : Enc := { version, minInstLen := hd.p.minInstLen, maxOps := hd.p.maxOps,
-                     defaultIsStmt := hd.p.defaultIsStmt, lineBase := hd.p.lineBase,
-                     lineRange := hd.p.lineRange }
-  let (tabs, workingDir) ← (match hd.directory 0 with
-    | some d => convertString strs version tabs d
-    | none =>
-      if version ≤ 4 then pure (tabs, { form := .string, val := [] })
-      else .err .missingCompilationDirectory : CRes (Tabs × LineStr))
-  let (tabs, sourceDir, sourceFile) ← (match hd.file 0 with
-    | some f => do
-      let (tabs, sd) ← (
-        if f.dirIndex ≠ 0 then
-          match hd.directory f.dirIndex with
-          | some d => do
-            let (tabs, x) ← convertString strs version tabs d
-            pure (tabs, some x)
-          | none => .err .invalidDirectoryIndex
-        else pure (tabs, none) : CRes (Tabs × Option LineStr))
-      let (tabs, sf) ← convertString strs version tabs f.path
-      pure (tabs, sd, sf)
-    | none =>
-      if version ≤ 4 then pure (tabs, none, { form := .string, val := [] })
-      else .err .missingCompilationName : CRes (Tabs × Option LineStr × LineStr))
+  let (tabs, wd) ← workingDir strs hd tabs
+  let (tabs, sd, sf) ← sourceFile strs hd tabs
   if hd.p.lineBase > 0 ∨ hd.p.lineBase + (hd.p.lineRange : Int) ≤ 0 then .err .invalidLineBase else
-  let prog ← ofWrite (Prog.new m hd.p.format hd.p.addrSize enc workingDir sourceDir sourceFile none)
+  let prog ← ofWrite (Prog.new m hd.p.format hd.p.addrSize (encOf hd.p) wd sd sf none)
   let st : CSt := { prog, tabs, files := if version ≤ 4 then [0] else [],
                     dirs := if version ≤ 4 then [0] else [],
                     fromRow := Row.new hd.p, fromAddress := 0, inSeq := false }
   let st ← convertDirs strs st hd.dirs
-  let has (ct : Nat) : Bool := hd.fileFormat.any (fun x => x.1 == ct)
-  let st := { st with prog := { st.prog with hasTimestamp := decide (version ≤ 4) || has 3,
-                                              hasSize := decide (version ≤ 4) || has 4,
-                                              hasMd5 := has 5, hasSource := has 0x2001 } }
-  convertFiles strs st hd.files
+  convertFiles strs (withFlags hd st) hd.files
 
-/-- `ConvertLineProgram::convert_row` -/
+/-- `ConvertLineProgram::convert_row`; its first step is `address_offset()`: an offset that is not a
+multiple of the minimum instruction length (which `DW_LNS_fixed_advance_pc` can produce) cannot be
+converted (`UnsupportedLineInstruction`; `read_row` does the same for the end of a sequence) -/
 def convertRow (st : CSt) : CRes WRow :=
   let file := st.fromRow.file
-  if file ≥ st.files.length then .err .invalidFileIndex
+  if st.fromRow.address % st.prog.enc.minInstLen ≠ 0 then .err .unsupportedLineInstruction
+  else if file ≥ st.files.length then .err .invalidFileIndex
   else if file = 0 ∧ st.prog.enc.version ≤ 4 then .err .invalidFileIndex
   else .ok { addressOffset := st.fromRow.address, opIndex := st.fromRow.opIndex,
              file := st.files.getD file 0, line := st.fromRow.line, column := st.fromRow.column,
@@ -252,7 +274,8 @@ def readRowLoop (strs : Strs) (h : Params) : (tomb : Bool) → (address : Option
             readRowLoop strs h false none { st with fromRow := reset h row, fromAddress := 0 } rest
           else readRowLoop strs h tomb address { st with fromRow := reset h row } rest
         else if row.endSequence then
-          .ok (some (.endSeq address row.address), { st with fromRow := row, inSeq := false }, rest)
+          if row.address % h.minInstLen ≠ 0 then .err .unsupportedLineInstruction
+          else .ok (some (.endSeq address row.address), { st with fromRow := row, inSeq := false }, rest)
         else
           let st := { st with fromRow := row, inSeq := true }
           match convertRow st with
